@@ -18,7 +18,7 @@ import time
 
 import z3
 
-from .symval import (Arr2C, Coll, MapC, NR, ArrC, ContractError, DictC, ExcVal, Func, I, ListC, MaybeNone, Method, Module, Obj, Opaque,
+from .symval import (Arr2C, Coll, LocalFunc, MapC, NR, RowDictC, ArrC, ContractError, DictC, ExcVal, Func, I, ListC, MaybeNone, Method, Module, Obj, Opaque,
                      R, Bo, Ref, SeqC, Sort, State, TStr, Unsupported, fresh, rv)
 from .report import REPO
 
@@ -548,11 +548,20 @@ class Engine:
                 else:
                     raise Unsupported('del of non-name')
             return [(st, None, None)]
-        if isinstance(n, (ast.FunctionDef, ast.ClassDef)):
+        if isinstance(n, ast.FunctionDef):
+            st.env[n.name] = LocalFunc(n)
+            return [(st, None, None)]
+        if isinstance(n, ast.ClassDef):
             st.env[n.name] = Func('local:' + n.name)
             return [(st, None, None)]
         if isinstance(n, ast.With):
-            raise Unsupported('with statement')
+            # context managers: the context expression is evaluated through its contract, the body runs once;
+            # __exit__ is assumed not to swallow exceptions
+            for item in n.items:
+                v = self.ev(item.context_expr, st)
+                if item.optional_vars is not None:
+                    self.assign(item.optional_vars, v, st)
+            return self.block(n.body, st)
         raise Unsupported('statement %s at line %d' % (type(n).__name__, n.lineno))
 
     # -- calls that may fork
@@ -836,7 +845,7 @@ class Engine:
             for loc in allowed_locs:
                 saved_outer.add('locid:' + loc)
             for pat in spec.frame:
-                if not pat.startswith('loc:'):
+                if not callable(pat) and not pat.startswith('loc:'):
                     saved_outer.add(pat)
         head_locs = set(head.locs) | set(head.initial_locs)
         for name, fn in spec.inv:
@@ -889,11 +898,14 @@ class Engine:
         referenced by a matching heap path"""
         ids = set()
         for pat in frame:
+            if callable(pat):
+                ids |= set(pat(st))          # state-dependent frame entry: returns location ids
+                continue
             if not pat.startswith('loc:'):
                 continue
             p = pat[4:]
             for loc, name in st.loc_names.items():
-                if fnmatch.fnmatchcase(name, p):
+                if fnmatch.fnmatchcase(name, p) and (loc in st.locs or loc in st.initial_locs):
                     ids.add(loc)
             for path, v in st.heap.items():
                 if fnmatch.fnmatchcase(path, p):
@@ -921,11 +933,17 @@ class Engine:
                 raise ContractError('loop #%d writes array %s which is not in its declared frame %s' % (lid, loc, frame))
             if w.startswith('loc:'):
                 continue
-            if not any(fnmatch.fnmatchcase(w, pat) for pat in frame):
+            if not any(fnmatch.fnmatchcase(w, pat) for pat in frame if not callable(pat)):
                 raise ContractError('loop #%d writes %s which is not in its declared frame %s' % (lid, w, frame))
 
     def havoc_frame(self, st, frame):
         for pat in frame:
+            if callable(pat):
+                for loc in pat(st):
+                    st.locs[loc] = self.havoc_content(st, st.content(Ref(loc)), st.loc_names.get(loc, loc))
+                    if st.writes is not None:
+                        st.writes.add('locid:' + loc)
+                continue
             if pat.startswith('$'):
                 nm = pat[1:]
                 if nm in st.env:
@@ -1130,6 +1148,18 @@ class Engine:
             seqv = seqv.value        # on this path `is not None` has been established by the code
         if isinstance(seqv, Coll):
             seqv = ('absiter', seqv, 'values')
+        if isinstance(seqv, tuple) and len(seqv) == 2 and seqv[0] == 'rowiter':
+            rd = seqv[1]
+            st.env[idx_name] = z3.IntVal(0)
+
+            def pre_body(s):
+                c = s.content(rd)
+                i = s.env[idx_name]
+                j = fresh('k', I)
+                row = s.new_ref(ArrC(z3.Lambda([j], c.rows(i, j)), c.width, None), 'rowval')
+                self.assign(n.target, (i, row) if enum else row, s)
+            test_fn = lambda s: s.env[idx_name] < s.content(rd).n  # noqa
+            return self.cut_for(n, st, spec, lid, idx_name, test_fn, pre_body, z3.IntVal(0), lambda s: s.content(rd).n)
         if isinstance(seqv, tuple) and len(seqv) == 3 and seqv[0] == 'absiter':
             coll, kind = seqv[1], seqv[2]
             st.env[idx_name] = z3.IntVal(0)
@@ -1439,6 +1469,13 @@ class Engine:
                 if isinstance(i, int):
                     return c.items[i]
                 raise Unsupported('symbolic index into python list of known length')
+            if isinstance(c, RowDictC):
+                key = as_real(self.ev(sl, st)).val
+                # lookup by key: supported for the first key (the only use in the code under contract)
+                if getattr(self.c, 'check_bounds', True):
+                    self.oblige(st, 'key-present[%s]' % ast.unparse(sl), z3.And(c.n > 0, key == c.keys[0]), {'kind': 'KeyError'})
+                j = fresh('k', I)
+                return st.new_ref(ArrC(z3.Lambda([j], c.rows(0, j)), c.width, None), 'row0')
             if isinstance(c, MapC):
                 k = to_z3(self.ev(sl, st))
                 if getattr(self.c, 'check_bounds', True):
@@ -1523,6 +1560,22 @@ class Engine:
                     st.set_content(base, ListC(items))
                     return
                 raise Unsupported('symbolic index store into python list')
+            if isinstance(c, RowDictC):
+                key = as_real(self.ev(sl, st)).val
+                vc = st.content(value)
+                if not isinstance(vc, ArrC):
+                    raise Unsupported('row-dict value')
+                # new key (strictly later time stamp): appended as the last entry
+                if getattr(self.c, 'check_bounds', True):
+                    j = fresh('j', I)
+                    self.oblige(st, 'new-key-not-present[%s]' % ast.unparse(sl),
+                                z3.ForAll([j], z3.Implies(z3.And(j >= 0, j < c.n), c.keys[j] != key)), {'kind': 'overwrite'})
+                n0 = c.n
+                rows0, vals = c.rows, vc.vals
+                st.set_content(base, RowDictC(z3.Store(c.keys, n0, key),
+                                              lambda i, k, rows0=rows0, n0=n0, vals=vals: z3.If(i == n0, vals[k], rows0(i, k)),
+                                              n0 + 1, z3.If(n0 == 0, vc.n, c.width)))
+                return
             if isinstance(c, MapC):
                 k = to_z3(self.ev(sl, st))
                 v = value.val if isinstance(value, NR) else to_z3(value)
@@ -1647,7 +1700,7 @@ class Engine:
                 return len(c.items) > 0
             if isinstance(c, DictC):
                 return len(c.items) > 0
-            if isinstance(c, (SeqC, MapC)):
+            if isinstance(c, (SeqC, MapC, RowDictC)):
                 return c.n > 0
             if isinstance(c, ArrC) and z3.is_int_value(c.n) and c.n.as_long() == 1:
                 return z3.Or(c.nan_at(0), c.vals[0] != 0)
@@ -2188,6 +2241,35 @@ class Engine:
                     raise Unsupported('**kwargs of a non-dict')
         return args, kwargs
 
+    def call_local(self, f, args, kwargs, st):
+        """inline a nested helper function: its body is part of the verified text (closure = enclosing locals)"""
+        fn = f.node
+        saved = st.env
+        env = dict(saved)
+        names = [a.arg for a in fn.args.args]
+        pos = fn.args.args
+        for a, d in zip(pos[len(pos) - len(fn.args.defaults):], fn.args.defaults):
+            env[a.arg] = self.ev(d, st)
+        for nm, v in zip(names, args):
+            env[nm] = v
+        env.update(kwargs)
+        st.env = env
+        outs = self.block(fn.body, st)
+        res = []
+        for s2, kind, payload in outs:
+            # locals of the helper do not leak; enclosing names it re-bound are not propagated (no nonlocal in the subset)
+            s2.env = dict(saved) if s2 is not st else saved
+            if kind in (None, 'return'):
+                res.append((None, 'value', (s2, payload if kind == 'return' else None)))
+            elif kind == 'raise':
+                res.append((None, 'raise', (s2, payload)))
+            else:
+                raise Unsupported('%s escapes a nested function' % kind)
+        st.env = saved
+        if len(res) == 1 and res[0][1] == 'value' and res[0][2][0] is st:
+            return res[0][2][1]
+        return Outcomes(res)
+
     def lookup(self, key):
         if key in self.c.calls:
             return self.c.calls[key]
@@ -2197,6 +2279,8 @@ class Engine:
         return self.externals.get(key)
 
     def call_value(self, f, args, kwargs, st, node):
+        if isinstance(f, LocalFunc):
+            return self.call_local(f, args, kwargs, st)
         if isinstance(f, Func):
             if f.name.startswith('exc:'):
                 return ExcVal(f.name[4:], tuple(args))
@@ -2228,6 +2312,13 @@ class Engine:
             if name in ('values', 'items', 'keys'):
                 return ('absiter', base, name)
             raise Unsupported('method %s on an abstract collection' % name)
+        if isinstance(base, Ref) and isinstance(st.content(base), RowDictC):
+            c = st.content(base)
+            if name == 'keys':
+                return st.new_ref(SeqC(c.keys, c.n, None), 'keys')
+            if name == 'values':
+                return ('rowiter', base)
+            raise Unsupported('method %s on a row dict' % name)
         if isinstance(base, Ref):
             c = st.content(base)
             if isinstance(c, SeqC):
@@ -2385,7 +2476,7 @@ def _len(ex, st, args, kw, node):
             return len(c.items)
         if isinstance(c, DictC):
             return len(c.items)
-        if isinstance(c, MapC):
+        if isinstance(c, (MapC, RowDictC)):
             return c.n
         if z3.is_int_value(c.n):
             return c.n.as_long()
